@@ -3,7 +3,7 @@ C21 -- plan_mutator inserts head/tail messages exactly as documented.
 
 Everything here is about `pmIter` (one iteration of plan_mutator's `while True:` loop, transcribed
 in Gen/Mutators.lean) for ARBITRARY generator behaviours: the plan that yields the message (the
-"host": any generator on top of the stack, at any depth), the head and the tail.  `Path n s io s'`
+"host": any generator on top of the stack, at any depth), the head and the tail.  `PmPath n s io s'`
 (Lemmas/C21.lean) says: from the loop-top state `s` the wrapper yields the messages of `io`, in
 this order, each answered with the paired response, with `n` non-yielding iterations in between,
 and is then at the loop top in state `s'`.  `C21_path_adequate` connects paths to the fuel-indexed
@@ -54,7 +54,7 @@ theorem C21_head_response (key : M → ι) (proc : Proc M R V E) (s : PM M ι R 
     (ins : Insertion key proc s g q q1 rest r rs0 msg hd none h)
     (hio : List (M × R)) (hv : V) (hrun : Runs (Pos.new h) default hio hv)
     (hq : ∀ mr ∈ hio, Quiet key proc (key msg :: s.msgsSeen) mr.1) :
-    ∃ n s_end, n ≤ 3 ∧ Path key proc n s hio s_end ∧
+    ∃ n s_end, n ≤ 3 ∧ PmPath key proc n s hio s_end ∧
       pmIter key proc s_end
         = pmOnSend key proc { s_end with resultStack := rs0, ret := lastResp default hio } g rest
             (q1.resume (.send (lastResp default hio))) := by
@@ -72,7 +72,7 @@ theorem C21_tail_only_original_first (key : M → ι) (proc : Proc M R V E) (s :
       (Beh.singleWith (fun _ => default) msg))
     (tio : List (M × R)) (tv : V) (htrun : Runs (Pos.new t) default tio tv)
     (hq : ∀ mr ∈ tio, Quiet key proc (key msg :: s.msgsSeen) mr.1) :
-    ∃ n s_end, n ≤ 3 ∧ Path key proc n s ((msg, r1) :: tio) s_end ∧
+    ∃ n s_end, n ≤ 3 ∧ PmPath key proc n s ((msg, r1) :: tio) s_end ∧
       pmIter key proc s_end
         = pmOnSend key proc { s_end with resultStack := rs0, ret := r1 } g rest
             (q1.resume (.send r1)) := by
@@ -101,7 +101,7 @@ theorem C21_tail_after_head_swallowed (key : M → ι) (proc : Proc M R V E) (s 
     (hio : List (M × R)) (hv : V) (hrun : Runs (Pos.new h) default hio hv)
     (tio : List (M × R)) (tv : V) (htrun : Runs (Pos.new t) default tio tv)
     (hq : ∀ mr ∈ hio ++ tio, Quiet key proc (key msg :: s.msgsSeen) mr.1) :
-    ∃ n s_end, n ≤ 3 ∧ Path key proc n s (hio ++ tio) s_end ∧
+    ∃ n s_end, n ≤ 3 ∧ PmPath key proc n s (hio ++ tio) s_end ∧
       pmIter key proc s_end
         = pmOnSend key proc { s_end with resultStack := rs0, ret := lastResp default hio } g rest
             (q1.resume (.send (lastResp default hio))) := by
@@ -122,15 +122,15 @@ theorem C21_exceptions_to_host (key : M → ι) (proc : Proc M R V E) (s : PM M 
     (∀ r rs0, s.exception = none → s.resultStack = r :: rs0 →
       p.resume (.send r) = (.raise x, p') →
       (dictGet s.tailCache gid = none ∨ dictGet s.tailCache gid = some none) →
-      ∃ s', Path key proc 1 s [] s' ∧
+      ∃ s', PmPath key proc 1 s [] s' ∧
         pmIter key proc s' = pmOnThrow key proc s' g rest (q.resume (.throw x))) ∧
     (∀ r rs0 tid (t : Beh M R V E), s.exception = none → s.resultStack = r :: rs0 →
       p.resume (.send r) = (.raise x, p') →
       dictGet s.tailCache gid = some (some (tid, Pos.new t)) →
-      ∃ s', Path key proc 2 s [] s' ∧
+      ∃ s', PmPath key proc 2 s [] s' ∧
         pmIter key proc s' = pmOnThrow key proc s' g rest (q.resume (.throw x))) ∧
     (∀ e0, s.exception = some e0 → p.resume (.throw e0) = (.raise x, p') →
-      ∃ s', Path key proc 1 s [] s' ∧
+      ∃ s', PmPath key proc 1 s [] s' ∧
         pmIter key proc s' = pmOnThrow key proc s' g rest (q.resume (.throw x))) := by
   refine ⟨?_, ?_, ?_⟩
   · intro r rs0 hex hrs hres htc
@@ -153,7 +153,7 @@ called (`procLog` unchanged), nothing is pushed. -/
 theorem C21_original_not_reprocessed (key : M → ι) (proc : Proc M R V E) (s : PM M ι R V E) (g : Nat)
     (q1 : Pos M R V E) (rest : List (GenObj M R V E)) (r : R) (rs0 : List R) (msg : M)
     (h : Beh M R V E) (tl : Option (Beh M R V E)) (n : Nat) (io : List (M × R))
-    (s' : PM M ι R V E) (hp : Path key proc n (inserted key s g q1 rest rs0 r msg h tl) io s')
+    (s' : PM M ι R V E) (hp : PmPath key proc n (inserted key s g q1 rest rs0 r msg h tl) io s')
     (m' : M) (hk : key m' = key msg) :
     pmProcess key proc s' m' = .yield m' s' :=
   pmProcess_seen key proc s' m' (hp.keeps _ (by simp [inserted, hk]))
@@ -182,7 +182,7 @@ theorem C21_processing_marks_seen (key : M → ι) (proc : Proc M R V E) (s s' :
 left it yields the messages of the path one by one when fed the responses, and arrives at the
 loop top of the final state with fuel left. -/
 theorem C21_path_adequate (key : M → ι) (proc : Proc M R V E) (n : Nat) (s s' : PM M ι R V E)
-    (io : List (M × R)) (hp : Path key proc n s io s') (plan : Beh M R V E) (fuel f0 : Nat)
+    (io : List (M × R)) (hp : PmPath key proc n s io s') (plan : Beh M R V E) (fuel f0 : Nat)
     (h1 : n < f0) (h2 : f0 ≤ fuel) :
     ∃ f1, f0 - n ≤ f1 ∧ f1 ≤ fuel ∧
       Follows fuel key proc plan (pmLoop key proc f0 s) io (pmLoop key proc f1 s') :=
